@@ -73,7 +73,7 @@ pub fn run(ctx: &Ctx, rec: &mut Rec) {
                 scalars.push(z.clone());
             }
         }
-        for _ in 0..ctx.scale(400, 10_000) {
+        for _ in 0..ctx.scale(1500, 20_000) {
             scalars.push((rand_below(&mut rng, &f.p), "random"));
         }
         for (i, (k, class)) in scalars.iter().enumerate() {
@@ -130,7 +130,7 @@ pub fn run(ctx: &Ctx, rec: &mut Rec) {
     par(rec, |w, n, rec| {
         let mut rng = rng_for(ctx.seed, P, w, 7);
         let pmod = &ctx.fp.p;
-        let reps = ctx.scale(120, 4000);
+        let reps = ctx.scale(600, 8000);
         for rep in 0..reps {
             if rep % n != w {
                 continue;
@@ -220,7 +220,7 @@ pub fn run(ctx: &Ctx, rec: &mut Rec) {
     // pairings
     par(rec, |w, n, rec| {
         let mut rng = rng_for(ctx.seed, P, w, 2);
-        let reps = ctx.scale(320, 6000);
+        let reps = ctx.scale(1200, 12_000);
         for rep in 0..reps {
             if rep % n != w {
                 continue;
@@ -277,7 +277,7 @@ pub fn run(ctx: &Ctx, rec: &mut Rec) {
     // extension tower: Frobenius maps and arithmetic on random Fp12 elements vs the reference tower
     par(rec, |w, n, rec| {
         let mut rng = rng_for(ctx.seed, P, w, 3);
-        let reps = ctx.scale(256, 4000);
+        let reps = ctx.scale(1000, 8000);
         for rep in 0..reps {
             if rep % n != w {
                 continue;
